@@ -93,6 +93,12 @@ func Harness_print_roundtrip() {
 	day := shared.NewLogNode(t, els, md)
 	out1, err1 := hPrint(layout, []*shared.LogNode{day})
 	verifAssert("print-ok", err1 == nil)
+	// names are data, never formatting directives
+	verifAssert("printed-text-well-formed", !verifGarbled(out1))
+	if verifGarbled(out1) {
+		verifCover("read-back")
+		return
+	}
 	back, err2 := hRead(layout, out1)
 	verifCover("read-back")
 	verifAssert("printed-log-reads-back", err2 == nil)
